@@ -237,6 +237,9 @@ func init() {
 
 func runC05(w *World, r *Report) {
 	r.NotDecided = []string{"exactness of Supply/Transfer against unbounded integers (e.g. the carry guard uses '<' where the carry happens at '>=': (2^64-1, 5·10^17)+(0, 5·10^17) wraps to (0,0) without error — visible only to arithmetic reasoning or execution)", "conservation over ledger histories (C02)"}
+	// ---- 0. the ledger asks the arithmetic, it does not re-implement it
+	r.rule("sufficiency-decided-by-drain", "checkHasSufficientfunds reports success only behind the success of in.Drain(*out, sink): the sufficiency verdict of the ledger is the verdict of Transfer, not of a parallel comparison", 1)
+	sufficiencyByDrain(w, r, "sufficiency-decided-by-drain")
 	// ---- 1. failure changes neither side
 	r.rule("atomic-on-failure", "at every error return of Supply/Transfer no *Melange pointee differs from its entry value: each store is undone by copyFrom(clone taken at entry) on every feasible path", 6)
 	for _, spec := range [][2]string{{"Melange", "Supply"}, {"", "Transfer"}} {
@@ -1033,6 +1036,44 @@ func everyItemPasses(fn *ssa.Function, rv *ssa.UnOp, processed func(ssa.Instruct
 	return bad == 0
 }
 
+// helperSavesKey: c calls a repo helper with the save callback and the ranged key among its arguments, and every
+// path through the helper to a return calls that callback parameter with that key parameter first.
+func helperSavesKey(c *ssa.Call, cb, key ssa.Value, depth int) bool {
+	h := c.Call.StaticCallee()
+	if h == nil || !isRepoFunc(h) || len(h.Blocks) == 0 || depth > 3 {
+		return false
+	}
+	ci, ki := -1, -1
+	for i, a := range c.Call.Args {
+		if a == cb {
+			ci = i
+		}
+		if sameVal(a, key) {
+			ki = i
+		}
+	}
+	if ci < 0 || ki < 0 || ci >= len(h.Params) || ki >= len(h.Params) {
+		return false
+	}
+	missed := 0
+	walkFrom(nil, h.Blocks[0], nil, func(x ssa.Instruction) bool {
+		if hc, ok := x.(*ssa.Call); ok {
+			if hc.Call.Value == ssa.Value(h.Params[ci]) && len(hc.Call.Args) > 0 && sameVal(hc.Call.Args[0], h.Params[ki]) {
+				return true
+			}
+			if helperSavesKey(hc, h.Params[ci], h.Params[ki], depth+1) {
+				return true
+			}
+		}
+		if _, ok := x.(*ssa.Return); ok {
+			missed++
+			return true
+		}
+		return false
+	})
+	return missed == 0
+}
+
 // checkpointWritesEveryAddress: shared by C07 (truncation is transparent) and C06 (a balance is the checkpoint plus the
 // live flows: a stale checkpoint record of a drained wallet is reported as money it no longer has).
 func checkpointWritesEveryAddress(w *World, r *Report, rule string) {
@@ -1069,6 +1110,9 @@ func checkpointWritesEveryAddress(w *World, r *Report, rule string) {
 							if key != nil && len(c.Call.Args) > 0 && sameVal(c.Call.Args[0], key) {
 								return true
 							}
+						}
+						if c, ok := x.(*ssa.Call); ok && key != nil && helperSavesKey(c, sfn.Params[1], key, 0) {
+							return true // a helper that is handed the callback and the key and calls one with the other on every path
 						}
 						if _, ok := x.(*ssa.Return); ok {
 							return true
